@@ -8,6 +8,7 @@ import (
 	"os"
 	"runtime"
 	"strings"
+	"sync"
 	"sync/atomic"
 	"time"
 
@@ -54,10 +55,12 @@ type driver struct {
 	skipFinalIsOpen bool
 	blockW          chan struct{}
 	halfClosed      bool
-	fedMark         int
 	noSettle        bool
 	trace           []string
 	inconcl         string
+	reqGIDs         sync.Map        // done channel of a launched request -> id of its goroutine
+	obsReq          <-chan struct{} // the request an await is watching (see observedParked)
+	obsOpid         string          // ... and its op id, when the scripted peer answers it
 }
 
 type causeVal struct {
@@ -91,6 +94,11 @@ func (d *driver) violate(sig, what string, extra interface{}) {
 	if d.mon != nil {
 		w["monitor_events"] = d.mon.all()
 	}
+	d.st.mu.Lock()
+	if len(d.st.dbg) > 0 {
+		w["streamlog"] = append([]string(nil), d.st.dbg...)
+	}
+	d.st.mu.Unlock()
 	d.h.violation(sig, what, w)
 	d.release()
 }
@@ -917,6 +925,7 @@ type reqResult struct {
 // startRequest issues one Request in its own goroutine.
 func (d *driver) startRequest(payload []byte) (want []byte, res chan reqResult, done chan struct{}) {
 	ctx, frame, want := prepRequest(payload)
+	d.obsOpid, _ = ctx.RequestHeader("_opid")
 	res, done = d.launch(ctx, frame, 30*time.Second)
 	return
 }
@@ -938,6 +947,7 @@ func (d *driver) launch(ctx frugal.FContext, frame []byte, timeout time.Duration
 	done = make(chan struct{})
 	tr := d.tr
 	go func() {
+		d.reqGIDs.Store((<-chan struct{})(done), curGID())
 		t, err := tr.Request(ctx, frame)
 		var b []byte
 		if err == nil && t != nil {
@@ -949,6 +959,28 @@ func (d *driver) launch(ctx frugal.FContext, frame []byte, timeout time.Duration
 	return
 }
 
+// observedParked: in the picture q the goroutine of the request under
+// observation (d.obsReq) is parked in the select of Request, waiting for its
+// answer.  Anything else - it has not started yet, it has been handed its
+// answer and is on its way out, it is gone - is not "waiting for good", and
+// other requests of the case (e.g. those of a cut stream that are never
+// answered and only wait for their short timeout) say nothing about it.
+func (d *driver) observedParked(q *lockPicture) bool {
+	if d.obsReq == nil {
+		return false
+	}
+	v, ok := d.reqGIDs.Load(d.obsReq)
+	if !ok {
+		return false
+	}
+	for i := range q.related {
+		if g := &q.related[i]; g.ID == v.(string) {
+			return g.State == "select" && g.in("Request")
+		}
+	}
+	return false
+}
+
 func (d *driver) unansweredCrit(p *lockPicture, _ []gblock) (string, string, bool) {
 	if s, w, ok := d.deadlockCrit("Request", false)(p, nil); ok {
 		return s, w, ok
@@ -957,7 +989,7 @@ func (d *driver) unansweredCrit(p *lockPicture, _ []gblock) (string, string, boo
 	// snapshot taken after that shows every read loop parked in Read again
 	// and every request of this case still waiting in its select, the answer
 	// was consumed without being delivered and nothing is in flight any more.
-	if d.fedMark >= 0 && d.st.fedCount() > d.fedMark && d.st.Pending() == 0 && d.errGenIdle() {
+	if d.obsOpid != "" && d.st.fedFor(d.obsOpid) && d.st.Pending() == 0 && d.errGenIdle() {
 		q := analyse(takeDump(), d.ptr, d.gid)
 		d.h.run.Add("goroutine_dumps", 1)
 		quiet := len(q.readers) > 0 && !q.nascent && !q.closing
@@ -966,22 +998,19 @@ func (d *driver) unansweredCrit(p *lockPicture, _ []gblock) (string, string, boo
 				quiet = false
 			}
 		}
-		waiting := 0
 		for i := range q.related {
-			if g := &q.related[i]; g.Mine && g.in("Request") {
-				if g.State != "select" {
-					quiet = false
-				}
-				waiting++
+			if g := &q.related[i]; g.Mine && g.in("Request") && g.State != "select" {
+				quiet = false
 			}
 		}
-		if quiet && waiting > 0 {
+		if quiet && d.observedParked(&q) {
 			return "C15:answer-consumed-not-delivered:" + d.ctx(),
 				"the peer's complete answer was read off the stream, the read loop is parked in Read again, the transport is not closing, and the request still waits: the frame was lost inside the transport (e.g. framing state left over from an earlier session)", true
 		}
 	}
-	if len(p.readers) == 0 && !p.nascent && !p.closing {
-		// (await has just re-checked that neither the answer nor a close cause has arrived)
+	if len(p.readers) == 0 && !p.nascent && !p.closing && d.observedParked(p) {
+		// (await has just re-checked that neither the answer nor a close cause has arrived,
+		// and in the same picture the request is parked in its select)
 		if len(d.readFaults) > 0 && d.readFaultFired() {
 			sig := "C15:swallowed-failure"
 			if d.reopened {
@@ -1000,9 +1029,9 @@ func (d *driver) doRequest() {
 	_, _, _, _, sW, sF := d.st.Snapshot()
 	wasOpen := d.m.Open
 	rmark := d.st.snap().readErrs
-	d.fedMark = d.st.fedCount()
-	defer func() { d.fedMark = -1 }()
 	want, res, done := d.startRequest([]byte(fmt.Sprintf("ping-%d", len(d.trace))))
+	d.obsReq = done
+	defer func() { d.obsReq, d.obsOpid = nil, "" }()
 	if !wasOpen {
 		if !d.await("Request on a closed transport", waitChan(done), d.deadlockCrit("Request", false)) {
 			return
@@ -1130,12 +1159,12 @@ func (d *driver) syncReader() {
 	for d.m.Open && d.status == stOK && !d.noSettle && !d.halfClosed {
 		hit := false
 		check := func() bool {
-			s := d.st.snap()
 			if len(d.readFaults) > 0 && d.readFaultFired() {
 				hit = true
 				return true
 			}
-			return s.inRead > 0 && d.st.Pending() == 0
+			parked, pending := d.st.ParkedReaders()
+			return parked > 0 && pending == 0
 		}
 		settled := d.await("read loop back in Read", func(t time.Duration) bool {
 			deadline := time.Now().Add(t)
@@ -1258,6 +1287,7 @@ func (d *driver) doCut(o op) {
 		stream = append(stream, responseFor(fl.frame)...)
 		ends = append(ends, len(stream))
 	}
+	flushMark := d.st.flushReturns()
 	for i, fl := range order {
 		to := 30 * time.Second
 		if ends[i] > o.A {
@@ -1265,7 +1295,12 @@ func (d *driver) doCut(o op) {
 		}
 		fl.res, fl.done = d.launch(fl.ctx, fl.frame, to)
 	}
-	if !pollUntil(func() (bool, bool) { return d.st.snap().collected == len(sizes), true }) {
+	// ... and every sender is back from its Flush: a frame may reach the peer
+	// through another sender's Flush, and a request whose own Flush is still
+	// on its way when the stream is cut legitimately fails with that error.
+	if !pollUntil(func() (bool, bool) {
+		return d.st.snap().collected == len(sizes) && d.st.flushReturns() >= flushMark+len(sizes), true
+	}) {
 		d.inconclusive("the three requests did not reach the peer within 15 s")
 		return
 	}
@@ -1280,13 +1315,17 @@ func (d *driver) doCut(o op) {
 	mark := d.st.snap().readErrs
 	d.logf("peer: %d of %d stream bytes (frames end at %v), then %s", cut, len(stream), ends, errKindName(o.B))
 	d.noteErrFed()
+	d.st.dbgf("cut feeds %x", stream[:cut])
 	d.st.Feed(stream[:cut])
 	d.st.FeedError(mkErr(o.B))
 	for i, fl := range order {
 		if ends[i] > cut || fl == nil {
 			continue
 		}
-		if !d.await("Request (complete frame before the cut)", waitChan(fl.done), d.unansweredCrit) {
+		d.obsReq = fl.done
+		ok := d.await("Request (complete frame before the cut)", waitChan(fl.done), d.unansweredCrit)
+		d.obsReq = nil
+		if !ok {
 			return
 		}
 		r := <-fl.res
@@ -1312,7 +1351,6 @@ func (d *driver) setup() {
 	d.gid = curGID()
 	d.st = newFtrans()
 	d.st.chunked = d.spec.Chunked
-	d.fedMark = -1
 	if len(d.spec.Faults) > 0 {
 		d.st.armOnFault = d.spec.Pol.OpenFails
 	}
